@@ -12,6 +12,7 @@ import (
 	"fmt"
 	"os"
 	"path/filepath"
+	"runtime"
 	"runtime/debug"
 	"sort"
 	"strings"
@@ -303,13 +304,23 @@ type WorkerArgs struct {
 	NShards   int
 	OutDir    string
 	Part      int
-	ResumeSub int    // resume after (ResumeSub, ResumeIdx); -1 = from the start
+	ResumeSub int // resume after (ResumeSub, ResumeIdx); -1 = from the start
 	ResumeIdx uint64
 	ReplaySub string // non-empty: run only this case
 	ReplayIdx uint64
 }
 
 // RunWorker runs the worker's share of the monitor and writes its result files.
+var procsList = []int{1, 2, 3, 4, 5, 6, 7, 8, 12, 16}
+var procsNames = func() map[int]string {
+	m := map[int]string{}
+	for _, p := range procsList {
+		m[p] = fmt.Sprintf("cases_run_with_GOMAXPROCS_%d", p)
+	}
+	return m
+}()
+var curProcs = -1
+
 func RunWorker(a WorkerArgs) error {
 	m := Lookup(a.Prop)
 	if m == nil {
@@ -386,6 +397,16 @@ func RunWorker(a WorkerArgs) error {
 			c.idx = idx
 			c.mark(si, idx, budget)
 			st.Cases++
+			if !m.Race {
+				// the number of CPUs the library may use is part of the configuration: a function of the case index
+				// (blocks of 32), so a replay runs under the same value
+				want := procsList[Mix(a.Seed, HashString(a.Prop), idx/32)%uint64(len(procsList))]
+				if want != curProcs {
+					runtime.GOMAXPROCS(want)
+					curProcs = want
+				}
+				c.sum.Counts[procsNames[want]]++
+			}
 			r := NewRand(Mix(a.Seed, HashString(a.Prop), HashString(sub.Name), idx))
 			if pv, stack := Catch(func() { sub.Run(c, idx, r) }); pv != nil {
 				c.Fail("", fmt.Sprintf("panic escaped the case: %v", pv), map[string]interface{}{"stack": stack})
